@@ -88,12 +88,14 @@ package logqlmetric
 //@   capture d1 = call(closeOnError, 1)
 //@   capture d2 = call(closeOnError, 2)
 //@   capture d3 = call(closeOnError, 3)
+//@   capture d4 = call(closeOnError, 4)
+//@   capture d5 = call(closeOnError, 5)
 //@   capture b0 = call(build, 0)
 //@   ensures[samples-closed-when-range-aggregation-fails] ra_called && ra_r1 != nil ==> d0_called && same(d0_a0, io.Closer(s_r0))
 //@   ensures[input-closed-when-vector-aggregation-fails] va_called && va_r1 != nil ==> d1_called && same(d1_a0, io.Closer(b0_r0))
-//@   ensures[left-closed-when-right-fails] b4_called && b4_r1 != nil ==> d2_called && same(d2_a0, io.Closer(b3_r0))
-//@   ensures[both-closed-when-the-operation-is-rejected] bo_called && bo_r1 != nil ==> d2_called && d3_called && same(d2_a0, io.Closer(b3_r0)) && same(d3_a0, io.Closer(b4_r0))
-//@   ensures[operand-closed-when-the-literal-operation-is-rejected] (ll_called && ll_r1 != nil ==> (d0_called && same(d0_a0, io.Closer(b1_r0))) || (d1_called && same(d1_a0, io.Closer(b1_r0))) || (d2_called && same(d2_a0, io.Closer(b1_r0))) || (d3_called && same(d3_a0, io.Closer(b1_r0)))) && (lr_called && lr_r1 != nil ==> (d0_called && same(d0_a0, io.Closer(b2_r0))) || (d1_called && same(d1_a0, io.Closer(b2_r0))) || (d2_called && same(d2_a0, io.Closer(b2_r0))) || (d3_called && same(d3_a0, io.Closer(b2_r0))))
+//@   ensures[left-closed-when-right-fails] b4_called && b4_r1 != nil ==> d4_called && same(d4_a0, io.Closer(b3_r0))
+//@   ensures[both-closed-when-the-operation-is-rejected] bo_called && bo_r1 != nil ==> d4_called && d5_called && same(d4_a0, io.Closer(b3_r0)) && same(d5_a0, io.Closer(b4_r0))
+//@   ensures[operand-closed-when-the-literal-operation-is-rejected] (ll_called && ll_r1 != nil ==> d2_called && same(d2_a0, io.Closer(b1_r0))) && (lr_called && lr_r1 != nil ==> d3_called && same(d3_a0, io.Closer(b2_r0)))
 //@   ensures[literal-on-the-left]  ll_called ==> ll_a3 && b1_called && ll_a0 == b1_r0 && b1_a0 == old(ll_a1.Right) && same(ll_a2, old(as[*logql.LiteralExpr](logql.UnparenExpr(ll_a1.Left)).Value))
 //@   ensures[literal-on-the-right] lr_called ==> !lr_a3 && b2_called && lr_a0 == b2_r0 && b2_a0 == old(lr_a1.Left) && same(lr_a2, old(as[*logql.LiteralExpr](logql.UnparenExpr(lr_a1.Right)).Value))
 //@   ensures[parentheses-around-a-literal-operand-are-transparent] (b3_called ==> !typeis[*logql.LiteralExpr](logql.UnparenExpr(b3_a0))) && (b4_called ==> !typeis[*logql.LiteralExpr](logql.UnparenExpr(b4_a0)))
